@@ -141,6 +141,28 @@ def rand_case(rng, max_items):
     return c
 
 
+def e2e_cases(rng, thorough):
+    """Kernels (s_endpgm) launched on whole platforms built by the public builders."""
+    def e(g, s, plat, gpus, ver, flags=FLAGS_IDS | 4):
+        return mk(g, s, mode='e2e', plat=plat, gpus=gpus, ver=ver, en=2, flags=flags)
+    out = [e((150, 2, 1), (100, 2, 1), 'emu', 1, 3), e((200, 3, 2), (64, 2, 1), 'emu', 2, 5),
+           e((70, 9, 2), (3, 5, 7), 'emu', 3, 5, FLAGS_IDS | 1 | 2 | 4 | 8 | 16 | 32),
+           e((200, 3, 1), (48, 2, 1), 'r9nano', 1, 3), e((130, 3, 1), (64, 2, 1), 'mi300a', 1, 5),
+           e((1000, 1, 1), (64, 1, 1), 'mi300a', 2, 5), e((333, 2, 2), (100, 1, 2), 'r9nano', 2, 3, FLAGS_IDS | 4 | 2)]
+    for _ in range(60 if thorough else 5):
+        sz = rand_size(rng)
+        for _ in range(50):
+            g = tuple(max(1, int(sz[i] * rng.choice([0.6, 1, 1.4, 2.5, 3.3])) + rng.choice([-1, 0, 1])) for i in range(3))
+            if prod(g) <= (12000 if thorough else 4000):
+                break
+        else:
+            g = sz
+        plat = rng.choice(['emu', 'emu', 'r9nano', 'mi300a'])
+        ver = {'emu': rng.choice([2, 3, 5]), 'r9nano': 3, 'mi300a': 5}[plat]
+        out.append(e(g, sz, plat, rng.randint(1, 4 if plat == 'emu' else 2), ver, rng.choice(FLAG_CHOICES)))
+    return out
+
+
 def cases_from_behaviours(behs):
     out = []
     for b in behs:
@@ -167,12 +189,12 @@ def nontrivial(c):
     partial = any(g[i] % s[i] for i in range(3))
     npow2 = any(x & (x - 1) for x in s)
     dims = sum(1 for i in range(3) if g[i] > 1)
-    return partial or npow2 or bool(c['cus']) or dims > 1
+    return partial or npow2 or bool(c['cus']) or dims > 1 or c.get('gpus', 0) > 1
 
 
 def key(c):
     return json.dumps([c['g'], c['s'], c['cus'], c['gpu'], c['mode'], c['parts'], c['ops'], c['regs'], c['ver'], c['en'],
-                       c['flags']])
+                       c['flags'], c.get('plat'), c.get('gpus')])
 
 
 # ------------------------------------------------------------------ running and judging
@@ -210,15 +232,15 @@ def judge(ctx, trace, cases, label):
         start, recs = vlib.trace_containing(trace, line)
         ev = recs[line - start]
         c = recs[0].get('c') or {}
-        sig = {'kind': 'deviation', 'deviation': name, 'event': ev.get('e')}
-        if ev.get('e') == 'Regs':
-            sig['mode'] = ev.get('mode')
-        k = (name, sig.get('mode'), ev.get('e'), json.dumps(c.get('g')), json.dumps(c.get('s')))
+        where = ev.get('mode') or ev.get('plat') or 'GridBuilder'
+        sig = {'kind': 'deviation', 'deviation': name, 'event': ev.get('e'), 'where': where}
+        k = (name, where, ev.get('e'), json.dumps(c.get('g')), json.dumps(c.get('s')))
         if k in reported:
             continue
         reported.add(k)
         what = '%s: %s; grid %s work-group size %s, work-group %s (current size %s) [%s]' % (
-            ctx.pid, DEV_WHAT.get(name, name), c.get('g'), c.get('s'), ev.get('id'), ev.get('cs'), ev.get('mode', 'GridBuilder'))
+            ctx.pid, DEV_WHAT.get(name, name), c.get('g'), c.get('s'), ev.get('id'), ev.get('cs'),
+            where + ('/' + c.get('plat') if c.get('mode') == 'e2e' else ''))
         new = ctx.report_failure(what, sig, {'driver': {'cmd': 'c08', 'label': label}, 'trace': recs,
                                              'failing_index': line - start + 1, 'deviation': name})
         if new:
@@ -306,7 +328,27 @@ def corruptions():
         recs[i]['accs'][1] = [recs[i]['accs'][0][-1]] + recs[i]['accs'][1]
         return recs
 
-    return [('drop_work_group', drop_wg), ('duplicate_work_group', dup_wg), ('flip_exec_mask_bit', flip_mask),
+    def e2e_drop_wavefront(recs, rng):
+        i = pick(recs, rng, lambda r: r['e'] == 'WfRun')
+        if i is None:
+            return None
+        return recs[:i] + recs[i + 1:]
+
+    def e2e_dup_wavefront(recs, rng):
+        i = pick(recs, rng, lambda r: r['e'] == 'WfRun')
+        if i is None:
+            return None
+        return recs[:i + 1] + [dict(recs[i])] + recs[i + 1:]
+
+    def e2e_wrong_wgid(recs, rng):
+        i = pick(recs, rng, lambda r: r['e'] == 'WfRun')
+        if i is None:
+            return None
+        recs[i]['sregs'][2] += 1      # flags of the self-test case: kernarg ptr (2 SGPRs), then the ids
+        return recs
+
+    return [('e2e_drop_wavefront', e2e_drop_wavefront), ('e2e_duplicate_wavefront', e2e_dup_wavefront),
+            ('e2e_wrong_wg_id_register', e2e_wrong_wgid), ('drop_work_group', drop_wg), ('duplicate_work_group', dup_wg), ('flip_exec_mask_bit', flip_mask),
             ('announce_one_more', wrong_announce), ('wrong_partial_size', wrong_size),
             ('shift_first_flat_id', wrong_first), ('corrupt_lane_id_register', wrong_reg),
             ('corrupt_wg_id_sgpr', wrong_wgid_sgpr), ('overlapping_gpu_ranges', split_overlap)]
@@ -386,21 +428,36 @@ def run(ctx, selftest=False):
     judge(ctx, t2, cases, 'cases')
     ctx.sample({'case': {k: cases[-1][k] for k in ('g', 's', 'cus', 'mode', 'regs', 'ver')}})
 
+    # 3b. whole platforms: driver -> command processor -> dispatcher -> compute units
+    ecases = e2e_cases(random.Random(ctx.seed + 1000), thorough)
+    t4, st4 = run_cases(ctx, drv, ecases, 'e2e')
+    ctx.log('launched %d kernels on whole platforms (emu / r9nano / mi300a, 1-4 GPUs): %s' % (len(ecases), st4))
+    judge(ctx, t4, ecases, 'e2e')
+    ctx.sample({'platform_case': {k: ecases[1][k] for k in ('g', 's', 'plat', 'gpus', 'ver')}})
+    cases = cases + ecases
+    for k in ('events', 'wgs', 'items', 'regwfs'):
+        st2[k] += st4[k]
+
     allc = scen + cases
     distinct = {key(c) for c in allc}
     nt = {key(c) for c in allc if nontrivial(c)}
     ctx.cov.update({'evaluations': len(allc), 'distinct_nontrivial': len(nt), 'distinct_cases': len(distinct),
                     'events_validated': st1['events'] + st2['events'], 'work_groups': st1['wgs'] + st2['wgs'],
                     'work_items': st1['items'] + st2['items'], 'register_dumps_wavefronts': st1['regwfs'] + st2['regwfs'],
-                    'split_cases': sum(1 for c in allc if c['cus']),
+                    'split_cases': sum(1 for c in allc if c['cus']), 'platform_runs': len(ecases),
                     'geometry_bounds': 'grid up to %d items, WG product <= 1024, 1-4 GPUs' % max(items_of(c) for c in allc)})
 
     # 4. binding self-test on the cases that have register dumps and a split
+    corr = corruptions()
+    t5, _ = run_cases(ctx, drv, [json.loads(json.dumps(ecases[1]))], 'selftest_e2e')
+    common.selftest_binding(ctx, TSPEC, t5, [x for x in corr if x[0].startswith('e2e_')])
+    res_e2e = ctx.cov['binding_selftest']
     sel = [c for c in cases if c['regs'] and c['mode'] == 'full'][:6] + [c for c in cases if c['cus'] and c['mode'] == 'full'][:4]
     sel = [json.loads(json.dumps(c)) for c in sel] + [mk((10, 5, 3), (4, 2, 2), cus=[2, 1, 1], regs=['emu', 'timing'], regwg=2,
                                                           flags=FLAGS_IDS | 4 | 2)]
     t3, _ = run_cases(ctx, drv, sel, 'selftest')
-    common.selftest_binding(ctx, TSPEC, t3, corruptions())
+    common.selftest_binding(ctx, TSPEC, t3, [x for x in corr if not x[0].startswith('e2e_')])
+    ctx.cov['binding_selftest'] = ctx.cov['binding_selftest'] + res_e2e
     ctx.assumptions += [
         'hardware rule modelled as in both compute units: lane l of a wavefront holds flat id FirstWiFlatID+l, flattened '
         'with the full work-group size; V5 code objects read packed ids (x | y<<10 | z<<20) from v0',
